@@ -31,7 +31,7 @@ prop("C08", "model_checking",
      "Bounded states (<=3 offered entries, plus a 7..9-entry family); ranges inside the document's namespace; the reference backend is the definition (ascending identifier order), as in the crate's own test stand-in.")
 prop("C09", "exploration",
      "exhaustive enumeration: every frame of real session transcripts under every two-way (and small three-way) chunking and every truncation; every decoder on all byte strings up to 2/3 bytes and on every single-byte replacement of valid encodings, decoded values exercised on the real code; pinned encodings against an independent hand-written layout encoder",
-     "All distinct session transcripts between small reachable states are encoded with the crate's codec and decoded under every split point, truncation and oversized length prefix, including encoding several frames into one buffer; frame, entry, message, heads, ticket, capability, filter and policy decoders are fed every short byte string and every single-byte corruption of valid encodings under catch_unwind, and whatever decodes is pushed through accessors, signature verification and a real replica; signed-entry, author and namespace encodings are pinned.",
+     "All distinct session transcripts between small reachable states are encoded with the crate's codec and decoded under every split point, truncation and oversized length prefix, including encoding several frames into one buffer; frame, entry, message, heads, ticket, capability, filter, policy decoders and the hex text form of the secret-key, public-key and id types are fed every short byte string and every single-byte corruption of valid encodings under catch_unwind, and whatever decodes is pushed through accessors, signature verification and a real replica; signed-entry, author and namespace encodings are pinned.",
      "'Arbitrary bytes' is replaced by its exhaustive small-scope counterpart; quick tier uses a 4-value subset beyond the first 48 bytes of each encoding.")
 prop("C10", "fault_enumeration",
      "exhaustive enumeration of peer scripts (every sequence of <=3 (quick) / <=5 (thorough) steps over a menu of correct and hostile frames) against the real acceptor and the real initiator over in-memory streams, plus every placement of one local fault (close / disable sync / actor shutdown) before each protocol step of real-vs-real sessions",
@@ -39,8 +39,8 @@ prop("C10", "fault_enumeration",
      "In-memory duplex transport; deadlines only as hang detectors with a 10x re-run.")
 prop("C11", "model_checking",
      "explicit-state breadth-first search over the real coordination handlers of two LiveActors (dial decisions, request delivery/loss, accept/decline, independent completion of both session ends, captured resync dials), canonical state from the implementation's coordination snapshot plus in-flight dials, invariants S1-S5 on every state",
-     "Two real LiveActors (never run) are driven through sync_with_peer, accept_sync_request and the two completion handlers with synthetic session results; every interleaving of up to 3 (quick) / 4 (thorough) dials is explored; at most one session in progress, crossing dials resolve to exactly one accepted, a refused sync report yields exactly one follow-up at the end of the running session, every quiescent state is Idle on both nodes, unsynced documents are declined NotFound.",
-     "Network abstracted to deliver/lose and independent completions; handlers read only the coordination state in this set-up (no subscribers, nothing queued).")
+     "Two real LiveActors (never run) are driven through sync_with_peer, accept_sync_request and the two completion handlers with synthetic session results; every interleaving of up to 3 (quick) / 4 (thorough) dials is explored; at most one session in progress, crossing dials resolve to exactly one accepted, a refused sync report yields exactly one follow-up at the end of the running session, every quiescent state is Idle on both nodes, unsynced documents are declined NotFound; the search is repeated with one node leaving the document and with a content download of the document queued at both nodes.",
+     "Network abstracted to deliver/lose and independent completions; besides the coordination state the handlers read only whether a download of the document is queued (explored both ways) and the subscriber list (empty).")
 prop("C12", "model_checking",
      "exhaustive enumeration of all request sequences up to a depth (local/remote writes, messages of a reconciliation session with a real peer, subscriber churn, policy changes) through the real store actor, every subscriber's drained event list compared with the reference model after every acknowledged request",
      "All sequences of <=4 (quick) / <=5 (thorough) requests over a 17-symbol alphabet through SyncHandle with up to 3 subscribers; per subscriber exactly one event per applied entry, in application order, carrying the entry, origin, peer, content status and the policy's download flag; nothing for rejected/superseded entries; unsubscribing or dropping one subscriber leaves the others unaffected.",
@@ -59,11 +59,11 @@ prop("C04", "model_checking",
      "Gossip abstracted as unreliable broadcast; small op alphabet (ins a, ins ab, ins '', del a) x 3 timestamps; replicas 0 and 2 share an author.")
 prop("C05", "exploration",
      "exhaustive product of all small reachable replica states (incl. stale by-key index rows) x the full query parameter product, each result compared with a list-comprehension oracle over the reference dump",
-     "8640 queries (kind x author filter x key filter x direction x include-empty x offset x limit) plus all point lookups on every state reachable from <=3 (quick) / <=4 (thorough) offered entries of a two-author universe with empty, prefix-related and 0xFF-edged keys.",
+     "8640 queries (kind x author filter x key filter x direction x include-empty x offset x limit) plus all point lookups on every state reachable from <=3 (quick) / <=4 (thorough) offered entries of a two-author universe with empty, prefix-related and 0xFF-edged keys; plus one state with an author whose id ends in 0xFF next to raw entries of byte-neighbouring author ids, queried with the product for author filter {any, that author}.",
      "States with at most 4 offered entries; ties for the greatest timestamp in latest-per-key accept any tied entry.")
 prop("C06", "fault_enumeration",
      "exhaustive fault enumeration on the real write path: every operation history up to a depth x every placement of <=2 'transaction is old' answers among the numbered store access points x a crash image at every access point and after every operation, each distinct image reopened and compared with the reference states",
-     "For every history of <=4 (quick) / <=5 (thorough) operations on a real file-backed store, every placement of up to two age-based commits between the internal store calls is forced through the access-point hook and the database file is copied at every access point; every distinct image must reopen to a state the store passed through between two complete operations and not older than the last acknowledged flush, with records, by-key index, heads, lookups, namespaces and authors mutually consistent.",
+     "For every history of <=4 (quick) / <=5 (thorough) operations on a real file-backed store, every placement of up to two age-based commits between the internal store calls is forced through the access-point hook and the database file is copied at every access point; every distinct image must reopen to a state the store passed through between two complete operations and not older than the last acknowledged flush, with records, by-key index, heads, lookups, namespaces and authors mutually consistent; a second alphabet covers peers, policies, removal and re-creation, a third one registrations into a useful-peer cache that is already full (insert + evict in one operation).",
      "Crash = process kill (file image as the OS holds it); power loss / torn sectors / crashes inside redb's commit are redb's contract.")
 prop("C07", "model_checking",
      "explicit-state breadth-first search (canonical state taken from the implementation, de-duplicated) over capability imports, opens, closes, write attempts, secret export and store reopen on the real Store and on the real store actor, against a max-capability reference model",
